@@ -51,6 +51,9 @@ pub fn rule_docs(ls: &LangSpec, variant: usize, with_fix: bool) -> Vec<Value> {
     // the message uses a variable produced by a transformation
     json!({"id": "shout", "language": ls.lang, "rule": {"pattern": "qux($Q)"}, "transform": {"LOUD": {"convert": {"source": "$Q", "toCase": "upperCase"}}},
            "message": "qux of $LOUD ($Q)", "severity": "info"}),
+    // the message uses a variable bound outside the reported node: equal texts, different messages
+    json!({"id": "zed-in", "language": ls.lang, "rule": {"pattern": "zed($Z)", "inside": {"pattern": "outer($NAME, $$$REST)", "stopBy": "end"}},
+           "message": "zed($Z) inside $NAME", "severity": "warning"}),
   ];
   if variant % 2 == 1 {
     v[1]["note"] = json!("a note for bar");
@@ -94,6 +97,8 @@ pub fn make_text(ls: &LangSpec, rng: &mut Rng, astral: bool) -> String {
     format!("bar(\"é\", foo(5)){s}"),
     format!("foo(bar(6), foo(7)){s}"),
     format!("foo(\n  8,\n){s}"),
+    format!("outer(a1, zed(1)){s}\nouter(b2, zed(1)){s}"),
+    format!("outer(c3, 0, zed(1)){s}"),
     if astral { format!("bar(\"😀\", foo(9)){s}") } else { format!("bar(\"中中\", foo(9)){s}") },
   ];
   let n = 2 + rng.below(6);
@@ -104,7 +109,9 @@ pub fn make_text(ls: &LangSpec, rng: &mut Rng, astral: bool) -> String {
     body.push_str(piece);
     body.push('\n');
   }
-  let text = format!("{}{}{}", ls.pre, body, ls.post);
+  // some texts start with blank lines: the tree's root node then starts after them, the document does not
+  let lead = if rng.chance(1, 4) { "\n\n" } else { "" };
+  let text = format!("{lead}{}{}{}", ls.pre, body, ls.post);
   if nl == "\r\n" { text.replace('\n', "\r\n") } else { text }
 }
 
